@@ -327,6 +327,8 @@ def run(ctx):
     res.append(r)
     res.append(rule_elide(facts))
     res.append(rule_castbind(facts))
+    from .c02 import rule_deadrule
+    res.append(rule_deadrule(facts, rule="C18-DEADRULE"))
     return res
 
 
@@ -336,7 +338,8 @@ CLAIM = {
             "parameters (monomorphic call sites from the instantiation walk). Decides schema/array type agreement per row for all inputs; "
             "dynamically computed types are not decided. Plus a guard rule: every conditional cast insertion in binder/planner (UNION branches, "
             "INSERT/VALUES, CASE, subquery and decimal comparisons) is controlled by inequality of the full DataType, so a branch cannot keep "
-            "a type that differs from the announced one in precision/scale/unit. Plus: a function bind that delegates to a cast kernel announces exactly the cast's target type value as its return_type.",
+            "a type that differs from the announced one in precision/scale/unit. Plus: a function bind that delegates to a cast kernel announces exactly the cast's target type value as its return_type."
+            " Plus DEADRULE (shared with C02): the disabled RemoveRedundantGroups rewrite, which mistypes shifted group columns, is not applied.",
     "note": "trusted: rustc HIR/MIR; id→physical and storage→physical maps are extracted from DataType::physical_type and "
             "ScalarStorage::PHYSICAL_TYPE in the code itself",
     "technique": "static analysis: const-table / MIR three-way agreement via registry instantiation walk (rustc_private driver)",
